@@ -299,6 +299,7 @@ def r3(ctx):
     banned = ("eval", "exec", "compile", "__import__", "pickle.loads", "pickle.load", "marshal.loads", "importlib.import_module", "globals", "locals", "vars")
     bad = []
     dyn = []
+    computed = []
     for fi in D:
         ints = _stream_ints(fi)
         for c in walk_own(fi.node):
@@ -340,9 +341,16 @@ def r3(ctx):
                     fexpr = sym_expr(fi, fexpr, cn_, trace=tr)
             if isinstance(fexpr, ast.Subscript):
                 dyn.append((fi, c, fexpr, list(tr.values())))
+            elif isinstance(c.func, ast.Name) and c.args and any(isinstance(x, ast.Name) and x.id == c.func.id and isinstance(x.ctx, ast.Store) for x in walk_own(fi.node)):
+                # a callable computed in the function (not a table entry) applied to something: what it builds from a decoded value
+                # is not bounded by the input - bytes(n), list(range(n)), a class picked by an annotation
+                computed.append("%s: %s (callee %s)" % (fi.qual, norm(c)[:60], norm(fexpr)[:60]))
             if isinstance(c.func, ast.Call) and isinstance(c.func.func, ast.Subscript):
                 dyn.append((fi, c.func, c.func.func, []))
     ctx.check(not bad, "C14.R3", "%s:deserialize_value" % M, "no eval/exec/pickle/import and no attribute access by a stream-derived name in the decoder graph", witness=bad)
+    ctx.check(not computed, "C14.R3", "%s:deserialize_value" % M, "no computed callable is applied to decoded data in the decoder graph",
+              "constructors reached from the decoder are the registered class and the table's readers - a type taken from an annotation and called on a "
+              "decoded value (bytes(n) for an integer n) allocates what the peer names, not what it sent", witness=computed)
     dv = ctx.fn("%s:deserialize_value" % M)
     cfg = cfg_of(dv)
     from .common import sym_text
